@@ -374,8 +374,12 @@ func (ctx *Context) evaluate() {
 	// ctx := &e.Context
 	var details []BufferSpan
 	numOpCountAdd := func(count IntType) bool {
-		e.NumOpCount += count
-		if ctx.Config.OpCountLimit > 0 && e.NumOpCount > ctx.Config.OpCountLimit {
+		sum := e.NumOpCount + count
+		wrapped := count > 0 && sum < e.NumOpCount // 次数接近整数上限时求和会回绕成负数，不能当作"未超限"
+		if !wrapped {
+			e.NumOpCount = sum
+		}
+		if ctx.Config.OpCountLimit > 0 && (wrapped || e.NumOpCount > ctx.Config.OpCountLimit) {
 			ctx.Error = errors.New("允许算力上限")
 			return true
 		}
